@@ -4,6 +4,7 @@ Model: `Model/Dest.lean` (client encoding, server decoding over the chunk-queue 
 resolver cache).  Fragmentation independence comes from `readExact_spec` (Lemmas/Reader).
 -/
 import AnyTLS.Lemmas.Dest
+import AnyTLS.Model.UdpRelay
 
 namespace AnyTLS.C07
 open AnyTLS
@@ -147,5 +148,36 @@ theorem pinned_hit_wrong_port :
 /-- non-vacuity: a 3-byte domain with port 443 split over three chunks -/
 example : (decodeDest { queue := [[3, 3, 97], [46], [98, 1, 187, 9]] }).1 matches .ok (.domain [97, 46, 98] 443) := by
   decide
+
+/-! ### ordinary destinations are dialled: the server's dispatch between the TCP relay and the UDP relay
+
+`TcpProxyHandler::handle_stream` hands a stream to the UDP-over-TCP relay — which answers "connected" at once and never
+dials the destination — when the destination's host name passes a test.  The test is regenerated from the source
+(`Gen.udpMagicRule`), and so is the name the client opens for an association (`Gen.udpMagicAddr`). -/
+
+/-- Obligation on the code: only the reserved name and names below it are taken for UDP-over-TCP streams. -/
+theorem gen_magic_rule : Gen.udpMagicRule = .reservedSuffix := by decide
+
+/-- T7.5 `ordinary_names_are_dialled`: every host name that is neither the reserved name nor below it — whatever it
+contains — goes to the TCP path, i.e. is resolved and dialled (`resolve_port`, `resolve_ip_of_host`). -/
+theorem ordinary_names_are_dialled (name : List Char) (h1 : name ≠ UdpRelay.reservedName)
+    (h2 : ¬ ('.' :: UdpRelay.reservedName) <:+ name) : UdpRelay.isUdpName Gen.udpMagicRule name = false := by
+  rw [gen_magic_rule]
+  simp only [UdpRelay.isUdpName, Bool.or_eq_false_iff]
+  refine ⟨by simpa using h1, ?_⟩
+  cases h : ('.' :: UdpRelay.reservedName).isSuffixOf name with
+  | false => rfl
+  | true => exact absurd (List.isSuffixOf_iff_suffix.mp h) h2
+
+/-- ... and the name the client opens for a UDP association is recognised (so the two ends agree). -/
+theorem client_magic_recognised : UdpRelay.isUdpName Gen.udpMagicRule Gen.udpMagicAddr = true := by decide
+
+/-- the excluded rule, refuted by a witness: an ordinary name that merely contains the reserved text was taken for a
+UDP-over-TCP stream — answered "connected", never dialled (the defect repaired in `ea5ec91`, replayed end to end by
+`e2e echo socks_magic`). -/
+theorem contains_rule_refuted :
+    UdpRelay.isUdpName .contains "my-udp-over-tcp.arpa.example.test".toList = true ∧
+    UdpRelay.isUdpName .reservedSuffix "my-udp-over-tcp.arpa.example.test".toList = false := by
+  constructor <;> rfl
 
 end AnyTLS.C07
